@@ -35,15 +35,15 @@ Proof.
 Qed.
 
 (* after a Push the number of distinct undelivered sequences is at most maxSize *)
-Theorem push_bound c now m s U : 0 <= maxSize c -> InvL U (seqs s) (events s) ->
-  let '(s', outs) := step c s (Push (Some m) now) in
-  exists U', chk_outs (pushU U (Push (Some m) now)) outs = Some U' /\ InvL U' (seqs s') (events s') /\
+Theorem push_bound c now now2 m s U : 0 <= maxSize c -> InvL U (seqs s) (events s) ->
+  let '(s', outs) := step c s (Push (Some m) now now2) in
+  exists U', chk_outs (pushU U (Push (Some m) now now2)) outs = Some U' /\ InvL U' (seqs s') (events s') /\
              Z.of_nat (length (useqs U')) <= maxSize c.
 Proof.
-  intros Hm HI. cbn [step]. pose proof (put_inv c now m s U HI) as HP.
-  pose proof (cleanup_ok false c now (put c now m s) _ HP) as HC.
-  pose proof (evict_len c now (seqs (put c now m s)) (events (put c now m s)) (lastSeq (put c now m s)) (hasLast (put c now m s)) Hm) as HL.
-  unfold cleanup in *. destruct (evict false c now _ _ _ _) as [[[[[sqs' em'] l'] h'] outs] lost].
+  intros Hm HI. cbn [step]. pose proof (put_inv c now now2 m s U HI) as HP.
+  pose proof (cleanup_ok false c now2 (put c now m s) _ HP) as HC.
+  pose proof (evict_len c now2 (seqs (put c now m s)) (events (put c now m s)) (lastSeq (put c now m s)) (hasLast (put c now m s)) Hm) as HL.
+  unfold cleanup in *. destruct (evict false c now2 _ _ _ _) as [[[[[sqs' em'] l'] h'] outs] lost].
   destruct HC as (U' & Hc & HI' & _ & _). exists U'. split; auto. split; auto.
   cbn [seqs events] in HI'. rewrite (useqs_length U' sqs' em' HI').
   destruct HL as [HL|HL]; auto. exfalso.
